@@ -128,23 +128,29 @@ func checkOffsetsAndLengths(p *Program, r *Result, isSink func(ssa.CallInstructi
 			continue
 		}
 		fname := funcName(fn)
-		stores := fieldStores(fn, of.typ, of.field)
+		stores := regionStores(regionOf(p, fn, 3), of.typ, of.field)
 		if len(stores) == 0 {
 			r.violated("C05.b", fname, "snapshot for "+of.typ+"."+of.field, p.pos(fn.Pos()), "the field is never set")
 			continue
 		}
 		for _, st := range stores {
-			checkSnapshot(p, r, fn, st.Val, of.typ+"."+of.field, of.allowed, of.zeroOK, st, isSink)
+			checkSnapshot(p, r, st.Parent(), st.Val, of.typ+"."+of.field, of.allowed, of.zeroOK, st, isSink)
 		}
 	}
 	// MessageIndexOffsets[channel] = w.w.Size() immediately before WriteMessageIndex of the same index
-	if fn := p.lookupFunc(pkgMcap, "Writer.WriteChunkWithIndexes"); fn != nil {
+	if fn0 := p.lookupFunc(pkgMcap, "Writer.WriteChunkWithIndexes"); fn0 != nil {
 		n := 0
-		for _, in := range instrsOf(fn) {
-			mu, ok := in.(*ssa.MapUpdate)
-			if !ok {
-				continue
+		fn := fn0
+		var mus []*ssa.MapUpdate
+		for _, rf := range regionOf(p, fn0, 3) {
+			for _, in := range instrsOf(rf) {
+				if mu, ok := in.(*ssa.MapUpdate); ok {
+					mus = append(mus, mu)
+				}
 			}
+		}
+		for _, mu := range mus {
+			fn = mu.Parent()
 			n++
 			checkSnapshot(p, r, fn, mu.Value, "ChunkIndex.MessageIndexOffsets[channel]", []string{"mcap.Writer.WriteMessageIndex"}, false, mu, isSink)
 			// key is the ChannelID of the index that is written next
@@ -467,15 +473,20 @@ func checkDifference(p *Program, r *Result, fn *ssa.Function, val, start ssa.Val
 // checkBracket: between the snapshot s1 and the position s2 only the allowed writers touch the sink.
 func checkBracket(p *Program, r *Result, fn *ssa.Function, s1 *ssa.Call, s2 ssa.Instruction, what string, allowed []string, at ssa.Instruction, isSink func(ssa.CallInstruction) (bool, string)) {
 	fname := funcName(fn)
-	// every sink call that lies between s1 and s2 must be an allowed writer
+	// every sink call that lies between s1 and s2 must be an allowed writer (calls to unexported helpers are replaced by
+	// the helpers' own calls)
 	bad := ""
-	for _, ci := range callsIn(fn, func(ci ssa.CallInstruction) bool { ok, _ := isSink(ci); return ok }) {
+	for _, dc := range deepCalls(p, fn, 3) {
+		if ok, _ := isSink(dc.in); !ok {
+			continue
+		}
+		ci := dc.top()
 		between := (ci.Block() == s1.Block() && blockIndexOf(ci) > blockIndexOf(s1) || reachableFromSuccs(s1.Block())[ci.Block()]) &&
 			(ci.Block() == s2.Block() && blockIndexOf(ci) < blockIndexOf(s2) || reachableFromSuccs(ci.Block())[s2.Block()] && ci.Block() != s2.Block())
 		if !between || !instrDominates(s1, ci) {
 			continue
 		}
-		name := calleeRepoName(ci)
+		name := dc.name
 		found := false
 		for _, a := range allowed {
 			if a == name {
